@@ -12,13 +12,22 @@ pub unsafe trait IndexType: Copy + Default + Hash + Ord + fmt::Debug + 'static {
     /// distinct values represent distinct indices
     proof fn ix_inj(a: Self, b: Self)
         ensures a.ix() == b.ix() ==> a == b;
+    /// the value `new(x)` returns (a function of x: conversions are deterministic)
+    spec fn spec_new(x: usize) -> Self;
+    /// `new` preserves every index up to `max`
+    proof fn new_law(x: usize)
+        requires x <= Self::spec_max()
+        ensures Self::spec_new(x).ix() == x;
+    /// every value represents an index up to `max`
+    proof fn ix_bound(a: Self)
+        ensures a.ix() <= Self::spec_max();
     /// `Ord` on the index type is the order of the represented indices
     proof fn ord_law()
         ensures Self::obeys_cmp_spec(),
                 forall|a: Self, b: Self| (#[trigger] a.cmp_spec(&b)) == (if a.ix() < b.ix() { Ordering::Less } else if a.ix() == b.ix() { Ordering::Equal } else { Ordering::Greater });
     /*-*/
     fn new(x: usize) -> (r: Self)
-        /*+*/ensures x <= Self::spec_max() ==> r.ix() == x /*-*/;
+        /*+*/ensures r == Self::spec_new(x), x <= Self::spec_max() ==> r.ix() == x /*-*/;
     fn index(&self) -> (r: usize)
         /*+*/ensures r == self.ix(), r <= Self::spec_max() /*-*/;
     fn max() -> (r: Self)
@@ -29,10 +38,13 @@ pub unsafe trait IndexType: Copy + Default + Hash + Ord + fmt::Debug + 'static {
 //@ item src/graph_impl/mod.rs | - | impl IndexType for usize
 unsafe impl IndexType for usize {
     /*+*/
+    open spec fn spec_new(x: usize) -> Self { x }
+    proof fn new_law(x: usize) {}
     open spec fn ix(&self) -> usize { *self }
     open spec fn spec_max() -> usize { usize::MAX }
     proof fn eq_law() {}
     proof fn ix_inj(a: Self, b: Self) {}
+    proof fn ix_bound(a: Self) {}
     proof fn ord_law() {}
     /*-*/
     #[inline(always)]
@@ -53,10 +65,13 @@ unsafe impl IndexType for usize {
 //@ item src/graph_impl/mod.rs | - | impl IndexType for u32
 unsafe impl IndexType for u32 {
     /*+*/
+    open spec fn spec_new(x: usize) -> Self { x as u32 }
+    proof fn new_law(x: usize) {}
     open spec fn ix(&self) -> usize { *self as usize }
     open spec fn spec_max() -> usize { u32::MAX as usize }
     proof fn eq_law() {}
     proof fn ix_inj(a: Self, b: Self) {}
+    proof fn ix_bound(a: Self) {}
     proof fn ord_law() {}
     /*-*/
     #[inline(always)]
@@ -77,10 +92,13 @@ unsafe impl IndexType for u32 {
 //@ item src/graph_impl/mod.rs | - | impl IndexType for u16
 unsafe impl IndexType for u16 {
     /*+*/
+    open spec fn spec_new(x: usize) -> Self { x as u16 }
+    proof fn new_law(x: usize) {}
     open spec fn ix(&self) -> usize { *self as usize }
     open spec fn spec_max() -> usize { u16::MAX as usize }
     proof fn eq_law() {}
     proof fn ix_inj(a: Self, b: Self) {}
+    proof fn ix_bound(a: Self) {}
     proof fn ord_law() {}
     /*-*/
     #[inline(always)]
@@ -101,10 +119,13 @@ unsafe impl IndexType for u16 {
 //@ item src/graph_impl/mod.rs | - | impl IndexType for u8
 unsafe impl IndexType for u8 {
     /*+*/
+    open spec fn spec_new(x: usize) -> Self { x as u8 }
+    proof fn new_law(x: usize) {}
     open spec fn ix(&self) -> usize { *self as usize }
     open spec fn spec_max() -> usize { u8::MAX as usize }
     proof fn eq_law() {}
     proof fn ix_inj(a: Self, b: Self) {}
+    proof fn ix_bound(a: Self) {}
     proof fn ord_law() {}
     /*-*/
     #[inline(always)]
